@@ -290,7 +290,7 @@ Lemma invoke_sim : forall fuel c code capsA capsB bA lA bB lB sA sB ts,
   srel sA sB -> Forall2 vrel capsA capsB ->
   snd (invoke fuel c (mkEntry code capsA bA lA) sA ts) = snd (invoke fuel c (mkEntry code capsB bB lB) sB ts).
 Proof.
-  intros fuel c code capsA capsB bA lA bB lB sA sB ts Hs Hcaps. unfold invoke, alloc_trees. cbn [ce_code ce_caps].
+  intros fuel c code capsA capsB bA lA bB lB sA sB ts Hs Hcaps. unfold invoke, invoke_val, alloc_trees. cbn [ce_code ce_caps].
   destruct (allocs_at Interp ts (length sA)) as [aA eA] eqn:EA.
   destruct (allocs_at Interp ts (length sB)) as [aB eB] eqn:EB.
   destruct (allocs_at_rel _ _ _ _ _ _ _ EA EB) as (L & H).
@@ -413,11 +413,11 @@ Qed.
 Lemma call_same : forall fuel tbl st i ts c,
   state_ok tbl st ->
   (forall e fd, lookup i (st_cache st) = Some e -> nth_error tbl i = Some fd -> intact fd e (st_store st)) ->
-  snd (step_call false fuel tbl st i ts c) = snd (step_call false fuel tbl empty_state i ts c).
+  snd (step_call false false fuel tbl st i ts c) = snd (step_call false false fuel tbl empty_state i ts c).
 Proof.
   intros fuel tbl st i ts c Hok Hint. unfold step_call.
   destruct (nth_error tbl i) as [fd|] eqn:Efd; [|reflexivity].
-  unfold entry_for, key_of. cbn [st_cache st_store empty_state lookup].
+  unfold entry_for, key_of. cbn [st_cache st_store empty_state lookup]. cbv iota.
   destruct (compile fd []) as [eB sB] eqn:EcB.
   destruct (compile_entry _ _ _ _ EcB) as (HcodeB & HbB & HcapsB & HsB & HlB).
   pose proof (intact_compiled _ _ _ _ EcB) as HiB.
@@ -498,7 +498,7 @@ Lemma invoke_frame : forall fuel c e s ts s' log o, invoke fuel c e s ts = (s', 
   length s <= length s' /\
   (forall a cell, ~ In a log -> nth_error s a = Some cell -> nth_error s' a = Some cell).
 Proof.
-  intros fuel c e s ts s' log o H. unfold invoke, alloc_trees, apply_body in H.
+  intros fuel c e s ts s' log o H. unfold invoke, invoke_val, alloc_trees, apply_body in H.
   destruct (allocs_at Interp ts (length s)) as [args ext].
   destruct (exec c (b_cmds (ce_code e)) (init_regs (args ++ ce_caps e)) (mkW [] (s ++ ext)) []) as [[w2 lg] ro] eqn:E.
   inversion H; subst; clear H.
@@ -513,11 +513,11 @@ Lemma entry_ok_mono : forall tbl s s' k e, entry_ok tbl s k e -> length s <= len
 Proof. intros tbl s s' k e (fd & A & B & C & D & E) L. exists fd. repeat split; auto. lia. Qed.
 
 Lemma step_ok : forall fuel tbl st ev st' log o,
-  state_ok tbl st -> step false fuel tbl st ev = (st', log, o) -> state_ok tbl st'.
+  state_ok tbl st -> step false false fuel tbl st ev = (st', log, o) -> state_ok tbl st'.
 Proof.
   intros fuel tbl st ev st' log o Hok H. destruct ev as [i ts c|a i z]; cbn in H.
   - unfold step_call in H. destruct (nth_error tbl i) as [fd|] eqn:Efd; [|inversion H; subst; auto].
-    unfold entry_for, key_of in H.
+    unfold entry_for, key_of in H. cbv iota in H.
     destruct (lookup i (st_cache st)) as [e|] eqn:El.
     + destruct (invoke fuel (func_ctx fd c) e (st_store st) ts) as [[s2 lg] res] eqn:Ei. inversion H; subst; clear H.
       destruct (invoke_frame _ _ _ _ _ _ _ _ Ei) as (L & _).
@@ -537,17 +537,17 @@ Proof.
     intros k e Hin. cbn in *. eapply entry_ok_mono; eauto. lia.
 Qed.
 
-Theorem cache_inv_reachable_from : forall fuel tbl hist st, state_ok tbl st -> state_ok tbl (run_hist false fuel tbl st hist).
+Theorem cache_inv_reachable_from : forall fuel tbl hist st, state_ok tbl st -> state_ok tbl (run_hist false false fuel tbl st hist).
 Proof.
   intros fuel tbl. induction hist as [|ev r IH]; intros st Hok; cbn; auto.
-  destruct (step false fuel tbl st ev) as [[st' lg] o] eqn:E. cbn. apply IH. eapply step_ok; eauto.
+  destruct (step false false fuel tbl st ev) as [[st' lg] o] eqn:E. cbn. apply IH. eapply step_ok; eauto.
 Qed.
 
 Lemma state_ok_empty : forall tbl, state_ok tbl empty_state.
 Proof. intros tbl k e []. Qed.
 
 (* every reachable state of the identity-keyed cache satisfies "entry = compile key" *)
-Theorem cache_inv_reachable : forall fuel tbl hist, state_ok tbl (run_hist false fuel tbl empty_state hist).
+Theorem cache_inv_reachable : forall fuel tbl hist, state_ok tbl (run_hist false false fuel tbl empty_state hist).
 Proof. intros. apply cache_inv_reachable_from. apply state_ok_empty. Qed.
 
 Lemma hits_in : forall c k e a, In (k, e) c -> in_region e a = true -> hits c a = true.
@@ -568,14 +568,14 @@ Proof.
 Qed.
 
 Lemma step_intact : forall fuel tbl st ev st' log o,
-  state_ok tbl st -> all_intact tbl st -> step false fuel tbl st ev = (st', log, o) ->
+  state_ok tbl st -> all_intact tbl st -> step false false fuel tbl st ev = (st', log, o) ->
   forallb (fun a => negb (hits (st_cache st') a)) log = true -> all_intact tbl st'.
 Proof.
   intros fuel tbl st ev st' log o Hok Hint H Hcl.
   pose proof (step_ok _ _ _ _ _ _ _ Hok H) as Hok'.
   destruct ev as [i ts c|a i z]; cbn in H.
   - unfold step_call in H. destruct (nth_error tbl i) as [fd|] eqn:Efd; [|inversion H; subst; auto].
-    unfold entry_for, key_of in H.
+    unfold entry_for, key_of in H. cbv iota in H.
     destruct (lookup i (st_cache st)) as [e|] eqn:El.
     + destruct (invoke fuel (func_ctx fd c) e (st_store st) ts) as [[s2 lg] res] eqn:Ei. inversion H; subst; clear H.
       destruct (invoke_frame _ _ _ _ _ _ _ _ Ei) as (_ & F). cbn [st_cache st_store] in *.
@@ -606,10 +606,10 @@ Qed.
 
 Lemma clean_hist_intact : forall fuel tbl hist st,
   state_ok tbl st -> all_intact tbl st -> clean_hist fuel tbl st hist = true ->
-  all_intact tbl (run_hist false fuel tbl st hist).
+  all_intact tbl (run_hist false false fuel tbl st hist).
 Proof.
   intros fuel tbl. induction hist as [|ev r IH]; intros st Hok Hint Hcl; cbn in *; auto.
-  destruct (step false fuel tbl st ev) as [[st' lg] o] eqn:E. cbn. apply andb_true_iff in Hcl. destruct Hcl as (H1 & H2).
+  destruct (step false false fuel tbl st ev) as [[st' lg] o] eqn:E. cbn. apply andb_true_iff in Hcl. destruct Hcl as (H1 & H2).
   apply IH; auto.
   - eapply step_ok; eauto.
   - eapply step_intact; eauto.
@@ -621,10 +621,10 @@ Qed.
    state gives what a fresh interpreter (empty cache, fresh compile) gives, as long as
    the captured copies of THIS function still hold what compile put there. *)
 Theorem cache_transparent : forall fuel tbl hist i ts c,
-  (forall e fd, lookup i (st_cache (run_hist false fuel tbl empty_state hist)) = Some e ->
+  (forall e fd, lookup i (st_cache (run_hist false false fuel tbl empty_state hist)) = Some e ->
                 nth_error tbl i = Some fd ->
-                intact fd e (st_store (run_hist false fuel tbl empty_state hist))) ->
-  result_after false fuel tbl hist i ts c = result_after false fuel tbl [] i ts c.
+                intact fd e (st_store (run_hist false false fuel tbl empty_state hist))) ->
+  result_after false false fuel tbl hist i ts c = result_after false false fuel tbl [] i ts c.
 Proof.
   intros fuel tbl hist i ts c Hint. unfold result_after. cbn [run_hist].
   apply call_same; auto. apply cache_inv_reachable.
@@ -659,7 +659,7 @@ Qed.
    ANY history (other functions, other contexts, transformed copies, writes by the caller) *)
 Theorem cache_transparent_no_captures : forall fuel tbl hist i ts c,
   (forall fd, nth_error tbl i = Some fd -> forallb list_free (fd_env fd) = true) ->
-  result_after false fuel tbl hist i ts c = result_after false fuel tbl [] i ts c.
+  result_after false false fuel tbl hist i ts c = result_after false false fuel tbl [] i ts c.
 Proof.
   intros fuel tbl hist i ts c Hfree. apply cache_transparent.
   intros e fd _ Hfd j cj Hj. unfold cells_of in Hj.
@@ -670,7 +670,7 @@ Qed.
    by the caller, e.g. through a returned captured list) lands in a captured region. *)
 Theorem history_independent_partial : forall fuel tbl hist i ts c,
   clean_hist fuel tbl empty_state hist = true ->
-  result_after false fuel tbl hist i ts c = result_after false fuel tbl [] i ts c.
+  result_after false false fuel tbl hist i ts c = result_after false false fuel tbl [] i ts c.
 Proof.
   intros fuel tbl hist i ts c Hcl. apply cache_transparent.
   intros e fd Hl Hfd.
@@ -701,13 +701,13 @@ Definition fn_g : funcdef := mkFn 7 None [] (mkBody [CAdd 1 (OReg 0) (ONum 2)] (
 
 (* DEFECT captured_list_write_persists: the unhypothesised statement is false in the faithful model *)
 Example bump_twice :
-  run_obs false 9 [fn_bump] empty_state [ECall 0 [TNum 1] RNE; ECall 0 [TNum 1] RNE]
+  run_obs false false 9 [fn_bump] empty_state [ECall 0 [TNum 1] RNE; ECall 0 [TNum 1] RNE]
   = [Some (TNum 2); Some (TNum 3)].
 Proof. vm_compute. reflexivity. Qed.
 
 Theorem history_independent_refuted :
   exists fuel tbl hist i ts c,
-    result_after false fuel tbl hist i ts c <> result_after false fuel tbl [] i ts c.
+    result_after false false fuel tbl hist i ts c <> result_after false false fuel tbl [] i ts c.
 Proof.
   exists 9%nat, [fn_bump], [ECall 0 [TNum 1] RNE], 0%nat, [TNum 1], RNE. vm_compute. discriminate.
 Qed.
@@ -715,13 +715,13 @@ Qed.
 (* DEFECT captured_list_returned_shared: get() hands out the interpreter's own list (location 0);
    the caller's write into it is seen by the next call *)
 Example get_poke_get :
-  run_obs false 9 [fn_get] empty_state [ECall 0 [] RNE; EPoke 0 0 99; ECall 0 [] RNE]
+  run_obs false false 9 [fn_get] empty_state [ECall 0 [] RNE; EPoke 0 0 99; ECall 0 [] RNE]
   = [Some (TList [TNum 1]); None; Some (TList [TNum 99])].
 Proof. vm_compute. reflexivity. Qed.
 
 Theorem history_independent_returned_refuted :
   exists fuel tbl hist i ts c,
-    result_after false fuel tbl hist i ts c <> result_after false fuel tbl [] i ts c.
+    result_after false false fuel tbl hist i ts c <> result_after false false fuel tbl [] i ts c.
 Proof.
   exists 9%nat, [fn_get], [ECall 0 [] RNE; EPoke 0 0 99], 0%nat, [], RNE. vm_compute. discriminate.
 Qed.
@@ -741,7 +741,7 @@ Example clean_hist_nonvacuous :
 Proof. vm_compute. reflexivity. Qed.
 
 Example contexts_matter :
-  run_obs false 9 [fn_scale] empty_state [ECall 0 [TList [TNum 7]] RTZ; ECall 0 [TList [TNum 7]] RTP]
+  run_obs false false 9 [fn_scale] empty_state [ECall 0 [TList [TNum 7]] RTZ; ECall 0 [TList [TNum 7]] RTP]
   = [Some (TList [TNum 3]); Some (TList [TNum 4])].
 Proof. vm_compute. reflexivity. Qed.
 
@@ -749,12 +749,103 @@ Proof. vm_compute. reflexivity. Qed.
    (same name) runs f's code *)
 Theorem name_keyed_cache_refuted :
   exists fuel tbl hist i ts c,
-    result_after true fuel tbl hist i ts c <> result_after true fuel tbl [] i ts c.
+    result_after true false fuel tbl hist i ts c <> result_after true false fuel tbl [] i ts c.
 Proof.
   exists 9%nat, [fn_f; fn_g], [ECall 0 [TNum 1] RNE], 1%nat, [TNum 1], RNE. vm_compute. discriminate.
 Qed.
 
 Example identity_keyed_same_history :
-  result_after false 9 [fn_f; fn_g] [ECall 0 [TNum 1] RNE] 1 [TNum 1] RNE = Some (TNum 3) /\
-  result_after true 9 [fn_f; fn_g] [ECall 0 [TNum 1] RNE] 1 [TNum 1] RNE = Some (TNum 2).
+  result_after false false 9 [fn_f; fn_g] [ECall 0 [TNum 1] RNE] 1 [TNum 1] RNE = Some (TNum 3) /\
+  result_after true false 9 [fn_f; fn_g] [ECall 0 [TNum 1] RNE] 1 [TNum 1] RNE = Some (TNum 2).
 Proof. split; vm_compute; reflexivity. Qed.
+
+(* ================================================================ the repaired variant (percall = true):
+   captured containers converted at every call, code still cached *)
+Open Scope nat_scope.
+
+Lemma step_ok_percall : forall fuel tbl st ev st' log o,
+  state_ok tbl st -> step false true fuel tbl st ev = (st', log, o) -> state_ok tbl st'.
+Proof.
+  intros fuel tbl st ev st' log o Hok H. destruct ev as [i ts c|a i z]; cbn in H.
+  - unfold step_call in H. destruct (nth_error tbl i) as [fd|] eqn:Efd; [|inversion H; subst; auto].
+    unfold entry_for, key_of in H. cbv iota in H.
+    destruct (compile fd (st_store st)) as [e1 s1] eqn:Ec.
+    destruct (compile_entry _ _ _ _ Ec) as (Hcode & Hb & Hcaps & Hs1 & Hl).
+    destruct (lookup i (st_cache st)) as [e|] eqn:El.
+    + destruct (invoke fuel (func_ctx fd c) (mkEntry (ce_code e) (ce_caps e1) (ce_base e1) (ce_len e1)) s1 ts)
+        as [[s2 lg] res] eqn:Ei. inversion H; subst; clear H.
+      destruct (invoke_frame _ _ _ _ _ _ _ _ Ei) as (L & _). rewrite app_length in L.
+      intros k e' Hin. cbn in *. eapply entry_ok_mono; [apply Hok; exact Hin|]. lia.
+    + destruct (invoke fuel (func_ctx fd c) e1 s1 ts) as [[s2 lg] res] eqn:Ei. inversion H; subst; clear H.
+      destruct (invoke_frame _ _ _ _ _ _ _ _ Ei) as (L & _). rewrite app_length in L.
+      intros k e' Hin. cbn in Hin. destruct Hin as [Heq|Hin].
+      * inversion Heq; subst k e'. exists fd. unfold cells_of. rewrite Hb. repeat split; auto. cbn. rewrite Hl. lia.
+      * cbn. eapply entry_ok_mono; [apply Hok; exact Hin|]. lia.
+  - destruct (nth_error (st_store st) a) as [cell|]; [|inversion H; subst; auto].
+    destruct (upd_nth cell i (VNum z)) as [cell'|]; [|inversion H; subst; auto].
+    destruct (upd_nth (st_store st) a cell') as [s'|] eqn:Eu; inversion H; subst; auto.
+    destruct (upd_nth_spec _ _ _ _ _ Eu) as (Hlen & _ & _).
+    intros k e Hin. cbn in *. eapply entry_ok_mono; eauto. lia.
+Qed.
+
+Lemma cache_inv_reachable_percall : forall fuel tbl hist st,
+  state_ok tbl st -> state_ok tbl (run_hist false true fuel tbl st hist).
+Proof.
+  intros fuel tbl. induction hist as [|ev r IH]; intros st Hok; cbn; auto.
+  destruct (step false true fuel tbl st ev) as [[st' lg] o] eqn:E. cbn. apply IH. eapply step_ok_percall; eauto.
+Qed.
+
+Lemma call_same_percall : forall fuel tbl st i ts c,
+  state_ok tbl st ->
+  snd (step_call false true fuel tbl st i ts c) = snd (step_call false true fuel tbl empty_state i ts c).
+Proof.
+  intros fuel tbl st i ts c Hok. unfold step_call.
+  destruct (nth_error tbl i) as [fd|] eqn:Efd; [|reflexivity].
+  unfold entry_for, key_of. cbn [st_cache st_store empty_state lookup]. cbv iota.
+  destruct (compile fd []) as [eB sB] eqn:EcB.
+  destruct (compile_entry _ _ _ _ EcB) as (HcodeB & HbB & HcapsB & HsB & HlB).
+  pose proof (intact_compiled _ _ _ _ EcB) as HiB.
+  destruct (compile fd (st_store st)) as [eA sA] eqn:EcA.
+  destruct (compile_entry _ _ _ _ EcA) as (HcodeA & HbA & HcapsA & HsA & HlA).
+  pose proof (intact_compiled _ _ _ _ EcA) as HiA.
+  destruct (lookup i (st_cache st)) as [e0|] eqn:ElA.
+  - destruct (Hok _ _ (lookup_In _ _ _ ElA)) as (fd' & Efd' & Hcode0 & _).
+    assert (fd' = fd) by congruence. subst fd'.
+    rewrite !snd_let3.
+    apply (invoke_same fuel (func_ctx fd c) fd (mkEntry (ce_code e0) (ce_caps eA) (ce_base eA) (ce_len eA)) eB _ _ ts).
+    + cbn. congruence.
+    + cbn. rewrite HbA. exact HcapsA.
+    + rewrite HbB. exact HcapsB.
+    + exact HiA.
+    + exact HiB.
+    + cbn. unfold cells_of. cbn. rewrite HsA, HbA, app_length. lia.
+    + rewrite HsB. unfold cells_of. rewrite HbB. cbn. lia.
+  - rewrite !snd_let3.
+    apply (invoke_same fuel (func_ctx fd c) fd eA eB _ _ ts).
+    + congruence.
+    + rewrite HbA. exact HcapsA.
+    + rewrite HbB. exact HcapsB.
+    + exact HiA.
+    + exact HiB.
+    + rewrite HsA. unfold cells_of. rewrite HbA. rewrite app_length. lia.
+    + rewrite HsB. unfold cells_of. rewrite HbB. cbn. lia.
+Qed.
+
+(* With the repair the UNHYPOTHESISED statement holds: every history, every function. *)
+Theorem history_independent_fixed : forall fuel tbl hist i ts c,
+  result_after false true fuel tbl hist i ts c = result_after false true fuel tbl [] i ts c.
+Proof.
+  intros fuel tbl hist i ts c. unfold result_after. cbn [run_hist].
+  apply call_same_percall. apply cache_inv_reachable_percall. apply state_ok_empty.
+Qed.
+
+(* the repaired model on the two witnesses *)
+Open Scope Z_scope.
+Example bump_twice_fixed :
+  run_obs false true 9 [fn_bump] empty_state [ECall 0 [TNum 1] RNE; ECall 0 [TNum 1] RNE]
+  = [Some (TNum 2); Some (TNum 2)].
+Proof. vm_compute. reflexivity. Qed.
+Example get_poke_get_fixed :
+  run_obs false true 9 [fn_get] empty_state [ECall 0 [] RNE; EPoke 0 0 99; ECall 0 [] RNE]
+  = [Some (TList [TNum 1]); None; Some (TList [TNum 1])].
+Proof. vm_compute. reflexivity. Qed.
